@@ -121,6 +121,18 @@ class WindowedCoordinator:
                         total_windows, current_time,
                     )
                     break
+            else:
+                # The last barrier may have delivered cross-partition events
+                # stamped exactly end_time: give every partition one more pass
+                # up to end_time so that they are not left undelivered.
+                if self._end_time != Instant.Infinity:
+                    futures = {}
+                    for name in self._simulations:
+                        futures[pool.submit(self._run_partition_window, name, self._end_time)] = name
+                    for future in as_completed(futures):
+                        name, elapsed = future.result()
+                        partition_wall_times[name] += elapsed
+                    total_cross_events += self._exchange_events(self._end_time)
 
         # Finalize each partition
         partition_summaries = {}
